@@ -1184,6 +1184,9 @@ pub fn path_pool() -> Vec<Template> {
         "/a.@n", "/a-@n", "/a.x?y=@w",
         // marker names that are prefixes of one another
         "/a/@n/@nn", "/a/@nn",
+        // a second pattern below the upper-case literal "/A/": the tree gets a node whose plain-text prefix has an
+        // upper-case letter
+        "/A/@w",
     ]
     .iter()
     .map(|s| Template::parse(s))
